@@ -49,17 +49,31 @@ def rounding_extra(b: str, decimals_default: bool) -> float:
     return 0.0
 
 
+def frac_sized(g):
+    from deepali.core.grid import Grid
+
+    h = Grid(size=[float(n) - 0.5 for n in g.size()], spacing=g.spacing(), center=g.center(), direction=g.direction(), align_corners=g.align_corners())
+    if tuple(h.size()) != tuple(g.size()):
+        raise MachineryError("fractional-size construction changed the number of samples")
+    return h
+
+
 def check_map_case(ctx: Ctx, c: Dict[str, Any], variant: int = 0) -> None:
     from deepali.core.grid import Axes, grid_transform_points, grid_transform_vectors
 
     g = mk_grid(c["g"])
     g2 = mk_grid(c["g2"][0]) if c["g2"] else None
+    if variant % 3 == 2:
+        # the same grids with a FRACTIONAL internal size (n - 1/2 samples, as left behind by downsample() of an odd-sized grid or
+        # resample()): the number of samples is still n, so every coordinate map must be the one of the integer-sized grid
+        g = frac_sized(g)
+        g2 = frac_sized(g2) if g2 is not None else None
     a, b, vec = c["a"], c["b"], bool(c["vec"])
     M = F(c["M"])
     P = F(c["P"])
     Q = F(c["Q"])
     scale = max(maxabs(M), maxabs(Q), maxabs(P))
-    sig0 = dict(a=a, b=b, vec=vec, to_grid=g2 is not None, **grid_sig(c["g"]))
+    sig0 = dict(a=a, b=b, vec=vec, to_grid=g2 is not None, frac=variant % 3 == 2, **grid_sig(c["g"]))
 
     def report(op: str, err: float, tol: float, **kw):
         ctx.violation(dict(op=op, **sig0, **kw), f"{op}({a}->{b}, vectors={vec}, to_grid={g2 is not None}) "
